@@ -24,7 +24,7 @@ LEVEL = "fault_enumeration"
 RULE = ("cases: (a) enumeration of 10 errors x {send, recv, handshake} x 4 endpoint classes x 2 positions (complete); (b) "
         "generated schedules: 2-4 connections on one tcp.Server, per-step client payloads, faults = (connection, send|recv, "
         "error, call index) and peer resets (abortive close with or without bytes still queued: recv delivers them, then "
-        "ECONNRESET, send gives EPIPE, getpeername ENOTCONN), with or without a wire log on the server. non-trivial = a fault hits a connection while a sibling connection still has traffic pending; "
+        "ECONNRESET, send gives EPIPE, getpeername ENOTCONN), with or without a wire log on the server; (c) schedules on one ServerTls: per connection a scripted handshake (0-4 would-blocks, then success or a connection-level error), peers that give up - also mid-handshake - and reconnect from the same address before the next service call. non-trivial = a fault hits a connection while a sibling connection still has traffic pending; "
         "distinct = canonical hash of the case")
 ASSUMPTIONS = ["errors are injected by the harness' in-memory sockets with the same exception types and errno values the "
                "kernel / ssl module raise (OSError(errno), ssl.SSLEOFError(SSL_ERROR_EOF))",
@@ -95,10 +95,21 @@ def run_schedule(case, r):
     srv = fakenet.FakeServant(bs=32, wl=wl)
     n = case["n"]
     clients = [srv.connect(41000 + i) for i in range(n)]
-    srv.service()
+    # a further peer that gives up (abortive close) right after connecting, before the server has serviced its accept
+    if case.get("early_reset"):
+        gone = srv.connect(41900)
+        srv.pending[-1].reset_by_peer()
+        gone.close()
+        r.labels.append("peer-reset-before-first-service")
+    try:
+        srv.service()
+    except Exception as ex:      # noqa: BLE001
+        r.fail("C10/server-service-raised", "Server.service() raised %s(%s) while accepting" % (type(ex).__name__, ex))
+        return
     ssocks = {}
     for ca, ix in srv.ixes.items():
-        ssocks[ca[1] - 41000] = ix.cs
+        if ca[1] < 41900:
+            ssocks[ca[1] - 41000] = ix.cs
     faults = case["faults"]
     hit = set()
     for f in faults:
@@ -177,11 +188,109 @@ def run_schedule(case, r):
         r.labels.append("fault-with-sibling-traffic")
 
 
+def run_tls_schedule(case, r):
+    """2-4 TLS connections on one real ServerTls (in-memory accepts, handshakes scripted per connection: k would-blocks,
+    then success or a connection-level error); a peer may give up - also in the middle of its handshake - and connect
+    again from the very same address before the server has serviced anything."""
+    n = case["n"]
+    srv = fakenet.FakeServantTls(bs=64)
+    live = {}          # conn index -> [client sock, server sock, handshake outcome]
+    sent = {}
+    got = {}
+
+    def connect(j, hs):
+        c = srv.connect(41000 + j)
+        b = srv.pending[-1]
+        b.hs_script = [["want"]] * hs[0] + ([["fail", hs[1]]] if hs[1] else [])
+        live[j] = [c, b, hs[1]]
+        sent[j] = b""
+        got[j] = bytearray()
+
+    for j in range(n):
+        connect(j, case["hs"][j % len(case["hs"])])
+    recon = {}
+    for rc in case["reconn"]:
+        recon.setdefault(rc["step"], []).append(rc)
+    replaced_pending = False
+    for stepno, pays in enumerate(case["steps"]):
+        for rc in recon.get(stepno, []):
+            j = rc["conn"] % n
+            c, b, _o = live[j]
+            ca = ("127.0.0.1", 41000 + j)
+            if ca in srv.cxes:
+                replaced_pending = True
+            # the peer aborts: whatever the server does next on that socket fails with a reset
+            b.hs_script = [["fail", "ECONNRESET"]]
+            b.reset_by_peer()
+            c.close()
+            connect(j, rc["hs"])
+        for j, p in enumerate(pays[:n]):
+            c, b, outcome = live[j]
+            if p and not outcome and not getattr(b, "rst", False):
+                c.send(p)
+                sent[j] += p
+        try:
+            srv.service()
+        except Exception as ex:      # noqa: BLE001
+            r.fail("C10/server-service-raised(tls)", "ServerTls.service() raised %s(%s)" % (type(ex).__name__, ex))
+            return
+        for ca, ix in list(srv.ixes.items()):
+            if ix.rxbs and not ix.cutoff:
+                ix.tx(bytes(ix.rxbs))
+                ix.clearRxbs()
+        for j, (c, b, _o) in live.items():
+            try:
+                while c.inbuf:
+                    got[j].extend(c.recv(4096))
+            except OSError:
+                pass
+    for _ in range(10):
+        try:
+            srv.service()
+        except Exception as ex:      # noqa: BLE001
+            r.fail("C10/server-service-raised(tls)", "ServerTls.service() raised %s(%s)" % (type(ex).__name__, ex))
+            return
+        for ca, ix in list(srv.ixes.items()):
+            if ix.rxbs and not ix.cutoff:
+                ix.tx(bytes(ix.rxbs))
+                ix.clearRxbs()
+        for j, (c, b, _o) in live.items():
+            try:
+                while c.inbuf:
+                    got[j].extend(c.recv(4096))
+            except OSError:
+                pass
+    for j, (c, b, outcome) in live.items():
+        ca = ("127.0.0.1", 41000 + j)
+        if outcome:
+            cx = srv.cxes.get(ca)
+            if cx is not None and cx.cs is b:
+                r.fail("C10/failed-handshake-still-pending", "connection %d: handshake failed with %s but the server still "
+                       "holds it among its pending handshakes" % (j, outcome))
+                return
+            ix = srv.ixes.get(ca)
+            if ix is not None and ix.cs is b and ix.connected:
+                r.fail("C10/connected-after-failed-handshake:ServerTls", "connection %d (%s)" % (j, outcome))
+                return
+        elif bytes(got[j]) != sent[j]:
+            r.fail("C10/sibling-not-served(tls)", "connection %d (handshake succeeds, no fault) sent %d bytes, got %d echoed" % (
+                j, len(sent[j]), len(got[j])))
+            return
+    r.nontrivial = replaced_pending or any(o for _c, _b, o in live.values())
+    r.labels.append("tls-schedule")
+    if replaced_pending:
+        r.labels.append("reconnect-from-same-address-while-handshake-pending")
+    if any(o for _c, _b, o in live.values()):
+        r.labels.append("handshake-fails")
+
+
 def run_case(case):
     r = Result()
     if case["k"] == "matrix":
         run_matrix(case, r)
         r.nontrivial = True
+    elif case["k"] == "tls-schedule":
+        run_tls_schedule(case, r)
     else:
         run_schedule(case, r)
     return r
@@ -209,10 +318,22 @@ def schedule_strategy():
                                   "faults": st.lists(fault, min_size=0, max_size=2, unique_by=lambda f: f["conn"]),
                                   "resets": st.lists(st.fixed_dictionaries({"conn": st.integers(0, 3), "index": st.integers(0, 5)}),
                                                      max_size=2, unique_by=lambda f: f["conn"]),
-                                  "wl": st.booleans(),
+                                  "wl": st.booleans(), "early_reset": st.sampled_from([False, False, True]),
+                                  "steps": st.lists(st.lists(pay, min_size=4, max_size=4), min_size=2, max_size=8)})
+
+
+def tls_schedule_strategy():
+    hs = st.tuples(st.integers(0, 4), st.sampled_from([None, None, None, "ECONNRESET", "SSLEOF", "EPIPE", "ETIMEDOUT",
+                                                         "ECONNABORTED" if "ECONNABORTED" in fakenet.ERRNOS else "ECONNRESET"])).map(list)
+    pay = st.one_of(st.just(b""), st.binary(min_size=1, max_size=60))
+    return st.fixed_dictionaries({"k": st.just("tls-schedule"), "n": st.integers(2, 4),
+                                  "hs": st.lists(hs, min_size=1, max_size=4),
+                                  "reconn": st.lists(st.fixed_dictionaries({"conn": st.integers(0, 3), "step": st.integers(0, 5),
+                                                                            "hs": hs}), max_size=2),
                                   "steps": st.lists(st.lists(pay, min_size=4, max_size=4), min_size=2, max_size=8)})
 
 
 def searches(tier):
     q = tier == "quick"
-    return [("fault-schedules", schedule_strategy(), 1200 if q else 12000)]
+    return [("fault-schedules", schedule_strategy(), 1200 if q else 12000),
+            ("tls-server-schedules", tls_schedule_strategy(), 800 if q else 8000)]
